@@ -54,7 +54,7 @@ register("C02", "props.c02", ["ValidaProofs.C02", "ValidaProofs.C02Spec"], 1500,
          "position) filtered over a generated document, 40% object histories (2-9 constructions over shared operands, by operator "
          "and by class call, null operands, same-operator nesting); distinct = (depth, kinds, operators, some-true) resp. "
          "(#constructions, shared?, refused?) tuples; non-trivial = result not constant / at least two constructions")
-register("C03", "props.c03", ["ValidaProofs.C03"], 1500, 40000,
+register("C03", "props.c03", ["ValidaProofs.C03", "ValidaProofs.C03Entry"], 1500, 40000,
          "one case = a path of 0-4 (thorough 0-6) parts mixing primitive parts and map/list/map-or-list parts with key/index/value "
          "condition trees and labels, resolved on a document grown along the path (65%) or random (35%), through all entry points; "
          "distinct = (length, concrete?, none/one/many selected, modifiers) tuples; non-trivial = the selection is non-empty")
